@@ -156,14 +156,51 @@ def _fl_cmp(x, op, a, b, p, site):
     yield p, Bool(iszero != isinstance(op, ast.NotEq))
 
 
+def _contains(x, c, item, p, site):
+    xs = items_of(c, site); tgt = items_of(item, site)
+    if len(tgt) != 1: raise Unsupported(site + ' `in` with a longer needle')
+    ch = tgt[0]
+    for it in xs:
+        if isinstance(it, Sym):
+            if it.lo <= ord(ch) <= it.hi: raise Unsupported(site + ' `in`: needle inside the range of a symbolic character')
+        elif it == ch:
+            yield p, Bool(True); return
+    yield p, Bool(False)
+
+
+def _startswith(x, recv, args, e, p, site):
+    xs = items_of(recv, site); pre = items_of(args[0], site)
+    yield p, Bool(items_eq(xs[:len(pre)], pre) if len(pre) <= len(xs) else z3.BoolVal(False))
+
+
+def _endswith(x, recv, args, e, p, site):
+    xs = items_of(recv, site); suf = items_of(args[0], site)
+    yield p, Bool(items_eq(xs[len(xs) - len(suf):], suf) if len(suf) <= len(xs) else z3.BoolVal(False))
+
+
+def _range(x, e, p, site):
+    """range() with bounds decided by the shape: the literal sequence of its values (the loop over it is then unrolled)"""
+    for p1, vs in x.ev_seq(list(e.args), p):
+        if isinstance(vs, Exc): yield p1, vs; continue
+        ns = []
+        for v in vs:
+            t = z3.simplify(v.t) if v.sort == 'int' else None
+            if t is None or not z3.is_int_value(t): raise Unsupported(site + ' range bound not decided by the shape')
+            ns.append(t.as_long())
+        r = range(*ns)
+        if len(r) > 700: raise Unsupported(site + ' range too long')
+        yield p1, Val('tuple', x=[Int(i) for i in r])
+
+
 REGISTRY_EXT = {
     'compare': {('cstr', 'str'): _cmp, ('str', 'cstr'): _cmp, ('cstr', 'cstr'): _cmp, ('fl', 'int'): _fl_cmp, ('int', 'fl'): _fl_cmp},
     'binops': {('cstr', 'Add', 'str'): _add, ('str', 'Add', 'cstr'): _add, ('cstr', 'Add', 'cstr'): _add},
-    'methods': {('.find', 'cstr'): _find},
+    'methods': {('.find', 'cstr'): _find, ('.startswith', 'cstr'): _startswith, ('.endswith', 'cstr'): _endswith},
+    'contains': {('cstr', 'str'): _contains, ('cstr', 'cstr'): _contains},
     'slices': {'cstr': _slice},
     'subscript': {('cstr', 'int'): _subscript},
 }
-HANDLERS = {'len': _len, 'int': _int, 'float': _float, 'str': _str}
+HANDLERS = {'len': _len, 'int': _int, 'float': _float, 'str': _str, 'range': _range}
 
 
 # ---------------------------------------------------------------------------------- shapes, the assumed repr layout, the ES6 postcondition
